@@ -193,3 +193,7 @@ func hasCanary(b []byte) bool {
 	s := string(b)
 	return strings.Contains(s, canaryName) || strings.Contains(s, canarySecret) || strings.Contains(s, `"iid"`) || strings.Contains(s, `"aid"`) || strings.Contains(s, `"value"`)
 }
+
+func dbOpen(dir string) (db.Database, error) { return db.NewDatabase(dir) }
+
+func dbEntity(id refctl.Identity) db.Entity { return db.NewEntity(id.ID, id.Pub, nil) }
